@@ -5,6 +5,7 @@ import (
 	"go/ast"
 	"go/token"
 	"go/types"
+	"golang.org/x/tools/go/cfg"
 	"regexp"
 	"strings"
 )
@@ -506,6 +507,58 @@ func runC14(c *Ctx) {
 			}
 		})
 		key := pkg + ".sortedSet." + m
+		if m == "deleteSorted" && n > 0 {
+			// The two ways to keep a late weight update away from a removed element: unsubscribe inside the
+			// section that removes it (what the code does - at the price of the recorded AB-BA finding), or
+			// unsubscribe afterwards AND let the weight callback check, under the mutex, that the element
+			// is still a member before it repositions it. Unsubscribing outside without that check lets an
+			// update delivered in between run updatePosition on a detached entry (stale index: live
+			// entries are swapped, or a panic at the tail).
+			rkey := pkg + ".sortedSet weight callback"
+			if len(bad) > 0 {
+				r.Pass("sorted/detached-element-not-repositioned", rkey, p.posStr(fd.Pos()), "the subscription is cancelled inside the section that removes the element")
+			} else {
+				guarded := false
+				if afd := p.FuncDecl(pkg, "sortedSet", "addSorted"); afd != nil {
+					ast.Inspect(afd.Body, func(nd ast.Node) bool {
+						cl, ok := nd.(*ast.CallExpr)
+						if !ok || !strings.HasSuffix(rawKey(cl.Fun), ".OnUpdate") || len(cl.Args) == 0 {
+							return true
+						}
+						lit, isLit := ast.Unparen(cl.Args[0]).(*ast.FuncLit)
+						if !isLit {
+							return true
+						}
+						lf := newFuncCFG(p, info, lit.Body, rkey)
+						ups := lf.Find(func(m ast.Node) bool {
+							c, ok := m.(*ast.CallExpr)
+							return ok && strings.HasSuffix(rawKey(c.Fun), ".updatePosition")
+						})
+						var member []Edge
+						lf.forEachEdgeFact(func(e Edge, b *cfg.Block, ft fact) {
+							k := lf.KeyAt(ft.Atom, Point{b, len(b.Nodes) - 1})
+							if strings.Contains(k, ".elements.Has(") || strings.Contains(k, ".elements.Get(") {
+								member = append(member, e)
+							}
+						})
+						if len(ups) > 0 && len(member) > 0 {
+							guarded = true
+							for _, up := range ups {
+								if _, only := lf.OnlyThroughEdges(up, member); !only {
+									guarded = false
+								}
+							}
+						}
+						return true
+					})
+				}
+				if guarded {
+					r.Pass("sorted/detached-element-not-repositioned", rkey, p.posStr(fd.Pos()), "the weight callback repositions an element only after a membership test")
+				} else {
+					r.Fail("sorted/detached-element-not-repositioned", rkey, p.posStr(fd.Pos()), "the removed element is unsubscribed from its weight variable after the sorted-set mutex was released, and the weight callback does not check that the element is still a member: an update delivered in between repositions a detached entry with a stale index (live entries are swapped out of weight order, or the slice is indexed past its end)")
+				}
+			}
+		}
 		if m == "deleteSorted" && n == 0 {
 			r.Fail("lock/no-unsubscribe-under-lock", key, p.posStr(fd.Pos()), "the deleted element is never unsubscribed from its weight variable")
 		} else if len(bad) > 0 {
